@@ -17,7 +17,7 @@ encoding of `Proto` (`-` = empty), lists of strings `|`-separated (`!` = empty l
   `display <dt>` / `displayold <dt>`                      → `filter_display_type`; dt = `;`-separated prefix form
   `nested <toks>`                                         → `1`/`0`   toks: `,`-separated `o:<tag>` `c:<tag>` `v:<tag>`
   `accept <root template name> <toks>`                    → `1`/`0`   is the tag-event sequence a rendering of the term?
-  `entryids <tree>`                                       → `|`-list; tree = `;`-separated prefix form
+  `entryids <tree>` / `nsentryids <tree>`                 → `|`-list; tree = `;`-separated prefix form
   `lexstay <state> <s>`                                   → `1`/`0`   does `s` keep the tokenizer in `state`?
 -/
 open NunavutVerif NunavutVerif.Html NunavutVerif.Proto
@@ -169,6 +169,10 @@ def answer (line : String) : String :=
   | ["entryids", tree] => orBad do
     match parseTree 64 (tree.splitOn ";") with
     | some (t, []) => pure (encList (entryIds t))
+    | _ => none
+  | ["nsentryids", tree] => orBad do
+    match parseTree 64 (tree.splitOn ";") with
+    | some (t, []) => pure (encList (nsEntryIds t))
     | _ => none
   | ["lexstay", st, s] => orBad do
     let q ← decState st
